@@ -242,6 +242,8 @@ struct Cmp<'a, 'b, 'c> {
     c: &'a mut Case<'b>,
     route: &'c str,
     ctx: serde_json::Value,
+    /// how the judged uptime value came about (part of the violation signature)
+    uptime_kind: &'static str,
 }
 
 impl Cmp<'_, '_, '_> {
@@ -277,7 +279,7 @@ impl Cmp<'_, '_, '_> {
             self.c.violation(
                 format!(
                     "f64-not-equal/{}/{}/{}",
-                    if field.contains("uptime") { "uptime_seconds" } else { "root_variance" },
+                    if field.contains("uptime") { self.uptime_kind } else { "root_variance" },
                     if realistic { "realistic-magnitude" } else { "extreme-magnitude" },
                     self.c.profile
                 ),
@@ -597,7 +599,7 @@ fn run(c: &mut Case) {
                         ),
                         Ok(Ok(read)) => {
                             c.inc("states_read_over_socket");
-                            Cmp { c: &mut *c, route: "observer task -> unix socket -> read_json", ctx: ctx.clone() }.state(st, &read, None);
+                            Cmp { c: &mut *c, route: "observer task -> unix socket -> read_json", ctx: ctx.clone(), uptime_kind: "uptime_seconds" }.state(st, &read, None);
                         }
                     }
                 }
@@ -637,7 +639,7 @@ fn run(c: &mut Case) {
                                 None => c.harness_error("cannot locate uptime_seconds in the captured frame"),
                                 Some(u) => c.inc("uptime_literals_checked"),
                             }
-                            Cmp { c: &mut *c, route: "observer task -> captured frame -> read_json", ctx: ctx.clone() }.state(st, &read, uptime_written);
+                            Cmp { c: &mut *c, route: "observer task -> captured frame -> read_json", ctx: ctx.clone(), uptime_kind: "uptime_seconds-of-observer-task" }.state(st, &read, uptime_written);
                             // cross-check of the harness's text-level view on the controlled f64 fields
                             for (k, v) in [
                                 ("root_variance_base", st.system.time_snapshot.root_variance_base),
@@ -683,12 +685,14 @@ fn run(c: &mut Case) {
     // ---- C: write_json directly with a chosen uptime
     {
         let st = &states[0];
-        let uptime = match c.rng.below(4) {
+        let uptime_sel = c.rng.below(4);
+        let uptime = match uptime_sel {
             // what Instant::elapsed().as_secs_f64() produces
             0 | 1 => std::time::Duration::new(c.rng.below(10_000_000), c.rng.below(1_000_000_000) as u32).as_secs_f64(),
             2 => std::time::Duration::new(c.rng.below(100), c.rng.below(1_000_000_000) as u32).as_secs_f64(),
             _ => gen_f64(c).abs(),
         };
+        let uptime_kind = if uptime_sel < 3 { "uptime_seconds-from-duration" } else { "uptime_seconds-arbitrary" };
         let published = ObservableState {
             program: ProgramData::with_dynamics(uptime, ts_from_u64(st.now)),
             system: st.system,
@@ -705,7 +709,7 @@ fn run(c: &mut Case) {
                 c.inc("direct_roundtrips");
                 match r {
                     Ok(Ok(read)) => {
-                        Cmp { c: &mut *c, route: "write_json -> read_json", ctx: json!({"uptime": format!("{uptime:e}")}) }.state(st, &read, Some(uptime));
+                        Cmp { c: &mut *c, route: "write_json -> read_json", ctx: json!({"uptime": format!("{uptime:e}")}), uptime_kind }.state(st, &read, Some(uptime));
                     }
                     Ok(Err(e)) => c.violation(
                         format!("published-state-unreadable/{}", c.profile),
